@@ -198,7 +198,7 @@ package system
 // eligibility and ranking of wildcard expansion read these flags): each flag is
 // its own kernel bit, ValidForever is the *valid* lifetime being infinite.
 //@ macro amOf(m) = as(m, "*rtnetlink.AddressMessage")
-//@ macro ipFrom(ip, m) = ip.Deprecated == (bitand(amOf(m).Attributes.Flags, 32) != 0) && ip.ManageTemporaryAddresses == (bitand(amOf(m).Attributes.Flags, 256) != 0) && ip.StablePrivacy == (bitand(amOf(m).Attributes.Flags, 2048) != 0) && ip.Temporary == (bitand(amOf(m).Attributes.Flags, 1) != 0) && ip.Tentative == (bitand(amOf(m).Attributes.Flags, 64) != 0) && ip.ValidForever == (amOf(m).Attributes.CacheInfo.Valid == 4294967295)
+//@ macro ipFrom(ip, m) = ip.Deprecated == (bitand(amOf(m).Attributes.Flags, 32) != 0) && ip.ManageTemporaryAddresses == (bitand(amOf(m).Attributes.Flags, 256) != 0) && ip.StablePrivacy == (bitand(amOf(m).Attributes.Flags, 2048) != 0) && ip.Temporary == (bitand(amOf(m).Attributes.Flags, 1) != 0) && ip.Tentative == (bitand(amOf(m).Attributes.Flags, 64) != 0) && ip.ValidForever == (amOf(m).Attributes.CacheInfo.Valid == 4294967295) && ip.Address == mkPfx(addrOfBytes(amOf(m).Attributes.Address), amOf(m).PrefixLength)
 //@ func (*addresser).AddressesByIndex
 //@   requires P1: a != nil && a.execute != nil && 0 <= index && index <= 4294967295
 //@   opt preserves heap(system.addresser), mem(net.Interface)
@@ -211,13 +211,23 @@ package system
 //@   ensures E1 [C13,C14]: ghost.execErr != nil ==> result1 != nil && len(result0) == 0
 //@   ensures E2 [C13,C14]: result1 != nil ==> result1 == ghost.execErr
 
+// Translation of an rtnetlink route message into a system.Route (C15: wildcard
+// route expansion filters and orders by exactly these fields): destination
+// bytes and length, out interface, and the RFC 4191 preference (Medium when the
+// kernel reports none).
+//@ macro rtOf(m) = as(m, "*rtnetlink.RouteMessage")
+//@ macro routeFrom(r, m) = r.Prefix == mkPfx(addrOfBytes(rtOf(m).Attributes.Dst), rtOf(m).DstLength) && r.Index == rtOf(m).Attributes.OutIface && r.Preference == ite(rtOf(m).Attributes.Pref == nil, 0, star(rtOf(m).Attributes.Pref))
 //@ func (*addresser).routesByIndex
 //@   requires P1: a != nil && a.execute != nil && 0 <= index && index <= 4294967295
 //@   opt preserves heap(system.addresser), mem(net.Interface)
 //@   loop 1 invariant L0: ghost.execErr == nil
+//@   loop 1 invariant T1 [C15]: 0 <= rangeindex + 1 && rangeindex + 1 <= len(msgs) && len(routes) == rangeindex + 1 && (routes == nil || fresh(routes)) && forall(k, 0, len(routes), routeFrom(routes[k], msgs[k]))
+//@   opt nobreak [C15]
 //@   assigns everything
 //@   ensures E1 [C15]: ghost.execErr != nil ==> result1 != nil && len(result0) == 0
 //@   ensures E2 [C15]: result1 != nil ==> result1 == ghost.execErr
+//@   ensures E3 [C15]: result1 == nil ==> forall(k, 0, len(result0), k < len(msgs) && routeFrom(result0[k], msgs[k]))
+//@   ensures E4 [C15]: result1 == nil && len(result0) > 0 ==> len(result0) == len(msgs)
 
 //@ func NewDialer
 //@   assigns new heap(system.Dialer), brk
